@@ -314,7 +314,7 @@ def vc_tape_getattr(H):
                     ctx.notes.append('expected-raise'); raise raised
                 return r
             if raised or not isinstance(r, Tape):
-                ctx.oblige('C11: coefficient access returns a tape', False)
+                raise OutOfSubset('C11: coefficient access returns a tape' + ' -- shape not recognised, contract does not apply')
                 return r
             ctx.oblige('C11: a coefficient is a scalar: keys == (0,)', r._keys == (0,))
             if kind == 'unknown-generator':
